@@ -165,6 +165,9 @@ theorem persist_frame (kr : Keyring) : ∀ w ∈ (persist kr).1, w.path ≠ .sto
       · simp at hw
         rcases hw with rfl | rfl | rfl <;> simp [PWrite.path]
 
+theorem mem_persist_fst {kr : Keyring} {ws : List PWrite} {r : Res} {w : PWrite} (hp : persist kr = (ws, r)) (hw : w ∈ ws) :
+    w.path ≠ .stored ∧ w.path ≠ .sealcfg := persist_frame kr w (by rw [hp]; exact hw)
+
 theorem step_frame (ns : Bool) (p : Phys) (b : Barrier) (fk : Key) (op : Op) (hni : ∀ k s, op ≠ .init k s) :
     ∀ w ∈ (step ns p b fk op).writes, w.path ≠ .stored ∧ w.path ≠ .sealcfg := by
   intro w hw
@@ -190,6 +193,18 @@ theorem step_frame (ns : Bool) (p : Phys) (b : Barrier) (fk : Key) (op : Op) (hn
         · rename_i kr _
           split at hw <;> exact persist_frame { kr with root := k } w (by simp_all)
   | init k s => exact absurd rfl (hni k s)
+  | tick =>
+    simp only [step] at hw
+    repeat' split at hw
+    all_goals first
+      | (simp at hw; done)
+      | exact mem_persist_fst (by assumption) hw
+  | setrot d =>
+    simp only [step] at hw
+    repeat' split at hw
+    all_goals first
+      | (simp at hw; done)
+      | exact mem_persist_fst (by assumption) hw
   | _ => simp only [step] at hw; repeat' split at hw
          all_goals simp at hw
          all_goals (try subst hw); simp [PWrite.path]
